@@ -622,6 +622,31 @@ def _expand_chunk(chunk):
     return [expand_node(a) for a in chunk]
 
 
+_WORKERS = [None]
+
+
+def pick_workers():
+    """Forked pool workers can be far slower than the parent on an oversubscribed VM (the
+    per-transition cost is dominated by fresh allocations): measure both once and use what is
+    faster.  Affects wall time only, never what is explored."""
+    if _WORKERS[0] is not None:
+        return _WORKERS[0]
+    if core.NCPU <= 1:
+        _WORKERS[0] = 1
+        return 1
+    probe = [("server", "fresh", "small", [("ncid", 1, 0)])]
+    expand_node(probe[0])  # warm caches (certificates)
+    t0 = time.time()
+    _expand_chunk(probe * 2)
+    inline = 2 / (time.time() - t0)
+    n = core.NCPU * 2
+    t0 = time.time()
+    core.pmap(_expand_chunk, [probe] * n)
+    pooled = n / (time.time() - t0)
+    _WORKERS[0] = core.NCPU if pooled > 1.3 * inline else 1
+    return _WORKERS[0]
+
+
 def bfs(role, base, alpha, depth, max_states=None, time_cap=None):
     t0 = time.time()
     root = World(role, base, alpha)
@@ -644,9 +669,10 @@ def bfs(role, base, alpha, depth, max_states=None, time_cap=None):
             stats["capped"] = "time cap %ss before depth %d" % (time_cap, d + 1)
             break
         args = [(role, base, alpha, h) for h in frontier]
-        n = max(1, len(args) // (core.NCPU * 6))
+        wk = pick_workers()
+        n = max(1, len(args) // (wk * 6))
         chunks = [args[i:i + n] for i in range(0, len(args), n)]
-        res = core.pmap(_expand_chunk, chunks)
+        res = core.pmap(_expand_chunk, chunks, workers=wk)
         flat = [r for ch in res for r in ch]
         nxt = []
         for h, succ in zip(frontier, flat):
@@ -838,20 +864,20 @@ def run_load(ctx):
 PLAN = {
     # (role, base, alphabet, depth)
     "quick": [
-        ("server", "fresh", "full", 2), ("client", "fresh", "full", 2),
-        ("server", "full", "full", 2), ("client", "full", "full", 2),
+        ("server", "fresh", "full", 2), ("client", "fresh", "full", 1),
+        ("server", "full", "full", 1), ("client", "full", "full", 2),
         ("server", "fresh", "medium", 3), ("client", "fresh", "medium", 3),
-        ("server", "full", "medium", 3), ("client", "full", "medium", 2),
-        ("server", "fresh", "small", 4), ("client", "fresh", "small", 4),
+        ("server", "full", "medium", 2), ("client", "full", "medium", 3),
+        ("server", "fresh", "small", 4), ("client", "fresh", "small", 3),
         ("server", "full", "small", 3), ("client", "full", "small", 3),
     ],
     "thorough": [
         ("server", "fresh", "full", 3), ("client", "fresh", "full", 2),
         ("server", "full", "full", 2), ("client", "full", "full", 3),
-        ("server", "fresh", "medium", 5), ("client", "fresh", "medium", 4),
+        ("server", "fresh", "medium", 4), ("client", "fresh", "medium", 4),
         ("server", "full", "medium", 4), ("client", "full", "medium", 4),
         ("server", "fresh", "small", 6), ("client", "fresh", "small", 5),
-        ("server", "full", "small", 5), ("client", "full", "small", 6),
+        ("server", "full", "small", 5), ("client", "full", "small", 5),
     ],
 }
 
@@ -871,6 +897,7 @@ def run(ctx):
     outcomes = set()
     if not ctx.only_parts or "load" in ctx.only_parts:
         run_load(ctx)
+    ctx.cov["bfs_workers_used"] = pick_workers()
     for role, base, alpha, depth in PLAN[ctx.tier]:
         name = "%s_%s_%s_d%d" % (role, base, alpha, depth)
         if ctx.only_parts and name not in ctx.only_parts and alpha not in ctx.only_parts:
